@@ -523,6 +523,62 @@ def rule_fixed_flag(chk, prog):
     (r.bad if bad else r.ok)("comparator shares one flag", cmpf.where(), bad or "")
 
 
+_INT_WIDTH = {"unsigned short": 16, "short": 16, "unsigned char": 8, "char": 8, "signed char": 8, "unsigned int": 32, "int": 32, "unsigned long": 64,
+              "long": 64, "unsigned long long": 64, "long long": 64}
+
+
+def rule_id_width(chk, prog):
+    """Connector / shape ids are user-chosen unsigned ints: a key that stores them in 16 bits makes different objects look alike."""
+    import json
+    import os
+    from ..facts import VERIF
+    r = chk.rule("ID-WIDTH", "every implicit conversion of a run-time integer (not a constant expression) to a type of at most 16 bits is one of the "
+                 "reviewed sites of tables/narrowing_reviewed.json (vertex numbers within one shape, flag bits, corner numbers) -- in particular "
+                 "the pair keys built from CONNECTOR IDS for the nudging code (Avoid::UnsignedPair) keep the ids at full width: truncated ids let "
+                 "two unrelated connectors pass for a pair that shares an end point, and they are then tied together instead of nudged apart", floor=10)
+    table = json.load(open(os.path.join(VERIF, "tables", "narrowing_reviewed.json")))["sites"]
+
+    def constant(e):
+        for x in walk(e):
+            if x.get("k") == "DeclRefExpr" and x.get("rk") in ("Var", "ParmVar", "Field"):
+                v = prog.vars.get(str(x.get("ref")))
+                if v is None or "const" not in str(v.get("t", "")):
+                    return False
+            if x.get("k") in ("CallExpr", "CXXMemberCallExpr", "CXXOperatorCallExpr", "MemberExpr", "CXXThisExpr"):
+                return False
+        return True
+    found = {}
+
+    def scan(f, root):
+        for n in walk(root):
+            if n.get("k") == "ImplicitCastExpr" and n.get("ck") == "IntegralCast":
+                to = str(n.get("t", "")).replace("const ", "")
+                src_ = (n.get("ch") or [{}])[0]
+                fr = str(src_.get("t", "")).replace("const ", "")
+                if _INT_WIDTH.get(to, 99) <= 16 and _INT_WIDTH.get(fr, 0) > _INT_WIDTH.get(to, 99) and not constant(src_):
+                    key = "%s: %s -> %s" % (re.sub(r"<[^<>]*>", "", f.q), fr, to)
+                    found.setdefault(key, []).append((f, n, norm(src_)[:60]))
+    for f in prog.all_functions():
+        if "/tests/" in f.file or f.tmpl == "pattern":
+            continue
+        if f.body:
+            scan(f, f.body)
+        for ini in f.d.get("inits", []):
+            if ini.get("expr"):
+                scan(f, ini["expr"])
+    for key in sorted(set(found) | set(table)):
+        r.count()
+        sites = found.get(key, [])
+        if key not in table:
+            f, n, text = sites[0]
+            r.bad(key, f.loc(n), "`%s` is cut down to %s: ids / indices / counts that differ by a multiple of 2^16 become equal" % (text, key.rsplit("-> ", 1)[1]))
+        elif len({(s_[1].get("l"), s_[2]) for s_ in sites}) > table[key][0]:
+            f, n, text = sites[-1]
+            r.bad(key, f.loc(n), "%d narrowing conversions in this function, %d were reviewed (%s)" % (len(sites), table[key][0], table[key][1][:80]))
+        else:
+            r.ok(key, sites[0][0].loc(sites[0][1]) if sites else "", "reviewed: " + table[key][1][:100])
+
+
 def run(chk):
     prog = chk.load()
     cg = CallGraph(prog)
@@ -534,6 +590,7 @@ def run(chk):
     chk.guard(rule_pairwise_stateless, chk, prog)
     chk.guard(rule_settings_dirty, chk, prog)
     chk.guard(rule_fixed_flag, chk, prog)
+    chk.guard(rule_id_width, chk, prog)
     from ..rules import mirrors
     r = chk.rule("MIRROR", "NudgingShiftSegment::lowC/highC and the scan-line helpers firstObstacleAbove/Below, markShiftSegmentsAbove/Below "
                  "stay exact mirror images (tables/mirrors.json)", floor=3)
